@@ -197,3 +197,8 @@ def check(cx):
     from . import c04
     cx.include(c04, {"C04.6"}, "C14.6", "shared with C04.6: the persisted last-committed id (the snapshot upper bound) only moves "
                "forward, whatever order concurrent transactions commit in", floor=1)
+
+    # ---- C14.7 id counters are read-modify-written under one guard (construct shared with C09.2b) ----------------
+    from . import c09
+    cx.include(c09, {"C09.2b"}, "C14.7", "shared with C09.2b: the transaction-id and object-id counters are incremented under the "
+               "write guard they were read under; two sessions beginning at the same moment never obtain the same id", floor=2)
